@@ -799,6 +799,13 @@ func (fr *Frame) runLoop(li *LoopInfo) {
 		phiHavoc[phi] = hv
 		fr.vals[phi] = hv
 	}
+	// the set of allocated objects only grows across iterations (assumed before the body so that the body's
+	// obligations can use it)
+	{
+		aliveSort := SArray(SRef, SBool)
+		qa := BoundVar("r", SRef)
+		c.assume(Forall([]*Term{qa}, Implies(Select(sIn.get("alive", aliveSort), qa), Select(fr.cur.get("alive", aliveSort), qa))))
+	}
 	autoTerm := fr.autoInduction(li, phiHavoc, in)
 	var measure0 *Term
 	if ls != nil {
@@ -1158,10 +1165,7 @@ func (fr *Frame) resolveEpoch(ep *Epoch, sIn *State, backs []EdgeRec) {
 			continue
 		}
 		if k == "alive" {
-			// allocation inside the loop: the set of live objects only grows
-			qa := BoundVar("r", SRef)
-			fr.ctx.assume(Forall([]*Term{qa}, Implies(Select(sIn.get(k, srt), qa), Select(hv, qa))))
-			continue
+			continue // monotonicity was assumed at the loop header
 		}
 		if partial && srt.K == KArray {
 			base := sIn.get(k, srt)
